@@ -234,7 +234,13 @@ class Sites:
                     here = self.doc
                     for pk in path:
                         here = here[pk]
-                    own = [jround(self.enc_key(x, v)) for x in t[1] if self.top_conforms(x, v)]
+                    own = []
+                    for x in t[1]:
+                        if self.top_conforms(x, v):
+                            try:
+                                own.append(jround(self.enc_key(x, v)))
+                            except Exception:
+                                pass
                     if own and all(o != here for o in own):
                         self.out.append((path, "union-pack"))
                 except Exception:
